@@ -1,7 +1,7 @@
 (* Theorems about the DiBS model (Dibs/Model.v):
    A. decision rule (C10), B. probability tables, C. training statistics. *)
-From WS Require Import Base.Py Base.Str Base.Counter Base.CounterProofs Separator.Model Dibs.Model.
-From Coq Require Import QArith Qabs Qminmax Qfield.
+From WS Require Import Base.Py Base.Str Base.Seg Base.Counter Base.CounterProofs Separator.Model Dibs.Model Dibs.StrLemmas.
+From Coq Require Import QArith Qabs Qminmax Qfield Lia.
 Local Open Scope Z_scope.
 
 (* ================================================================== *)
@@ -136,4 +136,349 @@ Proof.
   intros L H. unfold chunk in *.
   destruct (qlt_b thr2 (dget t xy)) eqn:E; [|discriminate H].
   now rewrite (threshold_monotone t thr1 thr2 xy L E).
+Qed.
+
+(* ================================================================== *)
+(* A'. the word list built by the loop (seg_words), since fix b848432  *)
+(* ================================================================== *)
+(* segment_utt no longer goes through the marker list [seg_loop]: it builds the
+   words as lists of units (seg_words) and joins them.  This part states the
+   decision rule for what segment_utt computes, and links it to seg_loop so that
+   the theorems above keep speaking about the code path. *)
+
+(* the units after [prev], cut before every unit u whose diphone (previous unit, u)
+   is above the threshold: (continuation of the current word, following words) *)
+Fixpoint dibs_cut (t : list ((str * str) * Q)) (thr : Q) (prev : str) (rest : list str)
+  : list str * list (list str) :=
+  match rest with
+  | [] => ([], [])
+  | u :: r =>
+    if qlt_b thr (dget t (prev, u))
+    then ([], (u :: fst (dibs_cut t thr u r)) :: snd (dibs_cut t thr u r))
+    else (u :: fst (dibs_cut t thr u r), snd (dibs_cut t thr u r))
+  end.
+
+(* the words of the utterance p0 :: rest *)
+Definition dibs_words (t : list ((str * str) * Q)) (thr : Q) (p0 : str) (rest : list str) : list (list str) :=
+  (p0 :: fst (dibs_cut t thr p0 rest)) :: snd (dibs_cut t thr p0 rest).
+
+(* index (in the concatenation, counted from off) of the first unit of every word *)
+Fixpoint word_starts (off : nat) (ws : list (list str)) : list nat :=
+  match ws with
+  | [] => []
+  | g :: r => off :: word_starts (off + length g)%nat r
+  end.
+
+(* a marker list split at the markers *)
+Fixpoint split_marker (m : str) (l : list str) : list (list str) :=
+  match l with
+  | [] => [[]]
+  | x :: r =>
+    if str_eqb x m then [] :: split_marker m r
+    else (x :: hd [] (split_marker m r)) :: tl (split_marker m r)
+  end.
+
+Theorem word_starts_spec : forall (ws : list (list str)) (off k : nat),
+  In k (word_starts off ws) <->
+  exists n : nat, (n < length ws)%nat /\ k = (off + length (concat (firstn n ws)))%nat.
+Proof.
+  induction ws as [|g r IH]; intros off k; cbn [word_starts In length].
+  - split; [intros []|]. intros [n [Hn _]]. inversion Hn.
+  - split.
+    + intros [E|Hin].
+      * exists 0%nat. split; [apply Nat.lt_0_succ|]. cbn [firstn concat length]. now rewrite Nat.add_0_r.
+      * apply IH in Hin. destruct Hin as [n [Hn E]]. exists (S n). split; [now apply -> Nat.succ_lt_mono|].
+        cbn [firstn concat]. rewrite app_length, Nat.add_assoc. exact E.
+    + intros [n [Hn E]]. destruct n as [|n].
+      * left. cbn [firstn concat length] in E. now rewrite Nat.add_0_r in E.
+      * right. apply IH. exists n. split; [now apply Nat.succ_lt_mono|].
+        cbn [firstn concat] in E. rewrite app_length, Nat.add_assoc in E. exact E.
+Qed.
+
+(* the loop, from any state: the finished words, then the current word continued up to the next
+   boundary, then the following words *)
+Theorem seg_words_spec : forall (t : list ((str * str) * Q)) (thr : Q) (prev : str) (rest cur : list str)
+                                (acc : list (list str)),
+  seg_words t thr prev rest cur acc =
+  rev acc ++ (rev cur ++ fst (dibs_cut t thr prev rest)) :: snd (dibs_cut t thr prev rest).
+Proof.
+  intros t thr prev rest. revert prev.
+  induction rest as [|u r IH]; intros prev cur acc.
+  - cbn [seg_words dibs_cut fst snd rev]. now rewrite app_nil_r.
+  - cbn [seg_words dibs_cut]. destruct (qlt_b thr (dget t (prev, u))); cbn [fst snd]; rewrite IH.
+    + cbn [rev app]. rewrite app_nil_r, <- app_assoc. reflexivity.
+    + cbn [rev]. rewrite <- app_assoc. reflexivity.
+Qed.
+
+Corollary seg_words_words (t : list ((str * str) * Q)) (thr : Q) (p0 : str) (rest : list str) :
+  seg_words t thr p0 rest [p0] [] = dibs_words t thr p0 rest.
+Proof. rewrite seg_words_spec. reflexivity. Qed.
+
+Lemma dibs_cut_concat (t : list ((str * str) * Q)) (thr : Q) (rest : list str) : forall prev : str,
+  fst (dibs_cut t thr prev rest) ++ concat (snd (dibs_cut t thr prev rest)) = rest.
+Proof.
+  induction rest as [|u r IH]; intros prev; [reflexivity|].
+  cbn [dibs_cut]. destruct (qlt_b thr (dget t (prev, u))); cbn [fst snd concat app]; now rewrite IH.
+Qed.
+
+(* no unit lost, duplicated or reordered *)
+Theorem seg_words_concat : forall (t : list ((str * str) * Q)) (thr : Q) (p0 : str) (rest : list str),
+  concat (seg_words t thr p0 rest [p0] []) = p0 :: rest.
+Proof.
+  intros t thr p0 rest. rewrite seg_words_words. unfold dibs_words. cbn [concat app].
+  now rewrite dibs_cut_concat.
+Qed.
+
+Lemma dibs_cut_nonnil (t : list ((str * str) * Q)) (thr : Q) (rest : list str) : forall prev : str,
+  Forall (fun g : list str => g <> []) (snd (dibs_cut t thr prev rest)).
+Proof.
+  induction rest as [|u r IH]; intros prev; [constructor|].
+  cbn [dibs_cut]. destruct (qlt_b thr (dget t (prev, u))); cbn [snd].
+  - constructor; [discriminate|apply IH].
+  - apply IH.
+Qed.
+
+(* no empty word *)
+Theorem seg_words_nonnil : forall (t : list ((str * str) * Q)) (thr : Q) (p0 : str) (rest : list str),
+  Forall (fun g : list str => g <> []) (seg_words t thr p0 rest [p0] []).
+Proof.
+  intros t thr p0 rest. rewrite seg_words_words. constructor; [discriminate|apply dibs_cut_nonnil].
+Qed.
+
+Lemma dibs_cut_starts (t : list ((str * str) * Q)) (thr : Q) (rest : list str) :
+  forall (prev : str) (cur : list str) (off k : nat),
+  In k (word_starts off ((cur ++ fst (dibs_cut t thr prev rest)) :: snd (dibs_cut t thr prev rest))) <->
+  k = off \/
+  exists (i : nat) (x y : str),
+    k = (off + length cur + i)%nat /\ nth_error (combine (prev :: rest) rest) i = Some (x, y) /\
+    qlt_b thr (dget t (x, y)) = true.
+Proof.
+  induction rest as [|u r IH]; intros prev cur off k.
+  - cbn [dibs_cut fst snd word_starts In combine]. split.
+    + intros [E|[]]. now left.
+    + intros [E|[i [x [y [_ [H _]]]]]]; [now left|]. destruct i; discriminate H.
+  - change (combine (prev :: u :: r) (u :: r)) with ((prev, u) :: combine (u :: r) r).
+    cbn [dibs_cut]. destruct (qlt_b thr (dget t (prev, u))) eqn:Eb; cbn [fst snd].
+    + cbn [word_starts In]. rewrite app_nil_r.
+      change (u :: fst (dibs_cut t thr u r)) with ([u] ++ fst (dibs_cut t thr u r)).
+      rewrite (IH u [u] (off + length cur)%nat k). cbn [length]. split.
+      * intros [E|[E|[i [x [y [E [Hn Hb]]]]]]].
+        -- now left.
+        -- right. exists 0%nat, prev, u. split; [lia|]. split; [reflexivity|exact Eb].
+        -- right. exists (S i), x, y. split; [|split; [exact Hn|exact Hb]].
+           cbn [length] in *. lia.
+      * intros [E|[i [x [y [E [Hn Hb]]]]]]; [now left|]. right. destruct i as [|i].
+        -- left. lia.
+        -- right. exists i, x, y. split; [|split; [exact Hn|exact Hb]].
+           cbn [length] in *. lia.
+    + change (cur ++ u :: fst (dibs_cut t thr u r)) with (cur ++ [u] ++ fst (dibs_cut t thr u r)).
+      rewrite app_assoc. rewrite (IH u (cur ++ [u]) off k). rewrite app_length. cbn [length]. split.
+      * intros [E|[i [x [y [E [Hn Hb]]]]]]; [now left|]. right.
+        exists (S i), x, y. split; [|split; [exact Hn|exact Hb]].
+        cbn [length] in *. lia.
+      * intros [E|[i [x [y [E [Hn Hb]]]]]]; [now left|]. right. destruct i as [|i].
+        -- cbn [nth_error] in Hn. injection Hn as <- <-. congruence.
+        -- exists i, x, y. split; [|split; [exact Hn|exact Hb]].
+           cbn [length] in *. lia.
+Qed.
+
+(* the words start at unit 0 and exactly at the units y = (p0 :: rest)[i+1] whose diphone
+   (x, y) = ((p0 :: rest)[i], (p0 :: rest)[i+1]) has a probability above the threshold *)
+Theorem seg_words_starts : forall (t : list ((str * str) * Q)) (thr : Q) (p0 : str) (rest : list str) (k : nat),
+  In k (word_starts 0 (seg_words t thr p0 rest [p0] [])) <->
+  k = 0%nat \/
+  exists (i : nat) (x y : str),
+    k = S i /\ nth_error (combine (p0 :: rest) rest) i = Some (x, y) /\ (thr < dget t (x, y))%Q.
+Proof.
+  intros t thr p0 rest k. rewrite seg_words_words. unfold dibs_words.
+  change (p0 :: fst (dibs_cut t thr p0 rest)) with ([p0] ++ fst (dibs_cut t thr p0 rest)).
+  rewrite dibs_cut_starts. cbn [length Nat.add]. split.
+  - intros [E|[i [x [y [E [Hn Hb]]]]]]; [now left|]. right. exists i, x, y.
+    split; [exact E|]. split; [exact Hn|]. now apply qlt_b_iff.
+  - intros [E|[i [x [y [E [Hn Hb]]]]]]; [now left|]. right. exists i, x, y.
+    split; [exact E|]. split; [exact Hn|]. now apply qlt_b_iff.
+Qed.
+
+(* for every adjacent pair (x, y) of units, at its position: a word boundary is placed between
+   them iff thr < P(x, y) *)
+Theorem seg_words_boundary_iff : forall (t : list ((str * str) * Q)) (thr : Q) (p0 : str) (rest : list str)
+                                        (i : nat) (x y : str),
+  nth_error (combine (p0 :: rest) rest) i = Some (x, y) ->
+  (In (S i) (word_starts 0 (seg_words t thr p0 rest [p0] [])) <-> (thr < dget t (x, y))%Q).
+Proof.
+  intros t thr p0 rest i x y Hn. rewrite seg_words_starts. split.
+  - intros [E|[j [x' [y' [E [Hn' L]]]]]]; [discriminate E|].
+    injection E as <-. rewrite Hn in Hn'. injection Hn' as <- <-. exact L.
+  - intros L. right. exists i, x, y. repeat split; assumption.
+Qed.
+
+(* raising the threshold never adds a boundary *)
+Theorem seg_words_threshold_monotone : forall (t : list ((str * str) * Q)) (thr1 thr2 : Q) (p0 : str)
+                                              (rest : list str),
+  (thr1 <= thr2)%Q ->
+  incl (word_starts 0 (seg_words t thr2 p0 rest [p0] [])) (word_starts 0 (seg_words t thr1 p0 rest [p0] [])).
+Proof.
+  intros t thr1 thr2 p0 rest L k Hk. apply seg_words_starts. apply seg_words_starts in Hk.
+  destruct Hk as [E|[i [x [y [E [Hn L2]]]]]]; [now left|]. right. exists i, x, y.
+  split; [exact E|]. split; [exact Hn|]. eapply Qle_lt_trans; eassumption.
+Qed.
+
+(* link with the marker list: for a marker that is not a unit, the words are the marker list
+   split at the markers; hence seg_loop_spec, boundary_iff, boundary_at and threshold_monotone,
+   read with such a marker, describe the words computed by segment_utt *)
+Lemma split_marker_seg_loop (t : list ((str * str) * Q)) (thr : Q) (m : str) (rest : list str) :
+  forall prev : str, ~ In m rest ->
+  split_marker m (seg_loop t thr m prev rest) = fst (dibs_cut t thr prev rest) :: snd (dibs_cut t thr prev rest).
+Proof.
+  induction rest as [|u r IH]; intros prev Hm; [reflexivity|].
+  assert (Hu : str_eqb u m = false).
+  { destruct (str_eqb_spec u m) as [E|_]; [|reflexivity]. exfalso. apply Hm. left. exact E. }
+  assert (Hr : ~ In m r) by (intros H; apply Hm; now right).
+  cbn [seg_loop dibs_cut]. destruct (qlt_b thr (dget t (prev, u))); cbn [app fst snd].
+  - cbn [split_marker]. rewrite str_eqb_refl, Hu, (IH u Hr). reflexivity.
+  - cbn [split_marker]. rewrite Hu, (IH u Hr). reflexivity.
+Qed.
+
+Theorem seg_words_vs_seg_loop : forall (t : list ((str * str) * Q)) (thr : Q) (wordsep p0 : str)
+                                       (rest : list str),
+  ~ In wordsep (p0 :: rest) ->
+  split_marker wordsep (p0 :: seg_loop t thr wordsep p0 rest) = seg_words t thr p0 rest [p0] [].
+Proof.
+  intros t thr wordsep p0 rest Hm. rewrite seg_words_words. unfold dibs_words.
+  assert (Hp : str_eqb p0 wordsep = false).
+  { destruct (str_eqb_spec p0 wordsep) as [E|_]; [|reflexivity]. exfalso. apply Hm. left. exact E. }
+  cbn [split_marker]. rewrite Hp, split_marker_seg_loop by (intros H; apply Hm; now right).
+  reflexivity.
+Qed.
+
+(* ---------- the output string of segment_utt ---------- *)
+
+Lemma dibs_cut_join (t : list ((str * str) * Q)) (thr : Q) (rest : list str) : forall (prev : str) (cur : list str),
+  join [sp] (map (@concat char) ((cur ++ fst (dibs_cut t thr prev rest)) :: snd (dibs_cut t thr prev rest))) =
+  concat cur ++ concat (seg_loop t thr [sp] prev rest).
+Proof.
+  induction rest as [|u r IH]; intros prev cur.
+  - cbn [dibs_cut fst snd map join seg_loop concat]. now rewrite !app_nil_r.
+  - cbn [dibs_cut seg_loop]. destruct (qlt_b thr (dget t (prev, u))); cbn [fst snd].
+    + cbn [map]. rewrite join_cons2. rewrite app_nil_r.
+      change (u :: fst (dibs_cut t thr u r)) with ([u] ++ fst (dibs_cut t thr u r)).
+      change (concat ([u] ++ fst (dibs_cut t thr u r)) :: map (@concat char) (snd (dibs_cut t thr u r)))
+        with (map (@concat char) (([u] ++ fst (dibs_cut t thr u r)) :: snd (dibs_cut t thr u r))).
+      rewrite (IH u [u]). cbn [concat app]. rewrite app_nil_r. reflexivity.
+    + change (cur ++ u :: fst (dibs_cut t thr u r)) with (cur ++ [u] ++ fst (dibs_cut t thr u r)).
+      rewrite app_assoc, (IH u (cur ++ [u])). rewrite concat_app. cbn [concat app].
+      rewrite app_nil_r, <- app_assoc. reflexivity.
+Qed.
+
+(* The output string is the concatenation of the marker list whose marker is a single space (which is
+   not a unit: units are non-empty and whitespace-free), whatever the word separator: seg_loop_spec,
+   boundary_iff, boundary_at and threshold_monotone with wordsep := [sp] describe the spaces of the output. *)
+Theorem segment_utt_seg_loop : forall (t : list ((str * str) * Q)) (thr : Q) (wordsep utt p0 : str)
+                                      (rest : list str),
+  split_ws (replace_all wordsep [sp] utt) = p0 :: rest ->
+  segment_utt t thr wordsep utt = Ok (concat (p0 :: seg_loop t thr [sp] p0 rest)).
+Proof.
+  intros t thr wordsep utt p0 rest E. unfold segment_utt. rewrite E. f_equal.
+  rewrite seg_words_words. unfold dibs_words.
+  change (p0 :: fst (dibs_cut t thr p0 rest)) with ([p0] ++ fst (dibs_cut t thr p0 rest)).
+  rewrite dibs_cut_join. cbn [concat]. now rewrite app_nil_r.
+Qed.
+
+(* the words read back from the output (str.split) are the words built by the loop *)
+Theorem segment_utt_words : forall (t : list ((str * str) * Q)) (thr : Q) (wordsep utt out p0 : str)
+                                   (rest : list str),
+  split_ws (replace_all wordsep [sp] utt) = p0 :: rest ->
+  segment_utt t thr wordsep utt = Ok out ->
+  split_ws out = map (@concat char) (seg_words t thr p0 rest [p0] []).
+Proof.
+  intros t thr wordsep utt out p0 rest E H. unfold segment_utt in H. rewrite E in H.
+  injection H as <-. apply split_ws_join.
+  pose proof (split_ws_ok (replace_all wordsep [sp] utt)) as Hok. rewrite E in Hok.
+  rewrite <- (seg_words_concat t thr p0 rest) in Hok.
+  pose proof (seg_words_nonnil t thr p0 rest) as Hnn.
+  induction (seg_words t thr p0 rest [p0] []) as [|g gs IH]; [constructor|].
+  cbn [concat] in Hok. apply Forall_app in Hok. destruct Hok as [Hg Hgs].
+  inversion Hnn as [|? ? Hgn Hgsn]; subst. cbn [map]. constructor.
+  - now apply concat_unit_ok.
+  - now apply IH.
+Qed.
+
+(* positional form on the output string: at the i-th adjacent pair (x, y) of units, the output is what is
+   rendered for the units up to x, then one space iff thr < P(x, y) (nothing otherwise), then y, then what
+   is rendered after y *)
+Theorem segment_utt_boundary_at : forall (t : list ((str * str) * Q)) (thr : Q) (wordsep utt p0 : str)
+                                         (rest : list str) (i : nat) (x y : str),
+  split_ws (replace_all wordsep [sp] utt) = p0 :: rest ->
+  nth_error (combine (p0 :: rest) rest) i = Some (x, y) ->
+  segment_utt t thr wordsep utt =
+  Ok (concat (p0 :: seg_loop t thr [sp] p0 (firstn i rest))
+      ++ (if qlt_b thr (dget t (x, y)) then [sp] else []) ++ y
+      ++ concat (seg_loop t thr [sp] y (skipn (S i) rest))).
+Proof.
+  intros t thr wordsep utt p0 rest i x y E Hn.
+  rewrite (segment_utt_seg_loop t thr wordsep utt p0 rest E). f_equal.
+  rewrite (boundary_at t thr [sp] p0 rest i x y Hn) at 1.
+  cbn [concat]. rewrite !concat_app, <- !app_assoc. f_equal. f_equal.
+  destruct (qlt_b thr (dget t (x, y))); cbn [concat app]; now rewrite ?app_nil_r.
+Qed.
+
+(* the rendered pieces contain the units and spaces only *)
+Lemma despace_seg_loop (t : list ((str * str) * Q)) (thr : Q) (rest : list str) : forall prev : str,
+  Forall unit_ok rest -> despace (concat (seg_loop t thr [sp] prev rest)) = concat rest.
+Proof.
+  induction rest as [|u r IH]; intros prev F; [reflexivity|].
+  inversion F as [|? ? [_ Hu] Hr]; subst. cbn [seg_loop]. rewrite concat_app, despace_app, (IH u Hr).
+  cbn [concat]. f_equal.
+  destruct (qlt_b thr (dget t (prev, u))); cbn [concat app]; rewrite ?app_nil_r.
+  - change (sp :: u) with ([sp] ++ u). rewrite despace_app, despace_sp. now apply despace_nosp.
+  - now apply despace_nosp.
+Qed.
+
+Lemma seg_loop_upto (t : list ((str * str) * Q)) (thr : Q) (i : nat) : forall (prev : str) (l : list str) (x : str),
+  Forall unit_ok (prev :: l) -> nth_error (prev :: l) i = Some x ->
+  exists a : str,
+    concat (prev :: seg_loop t thr [sp] prev (firstn i l)) = a ++ x /\
+    despace a = concat (firstn i (prev :: l)).
+Proof.
+  induction i as [|j IH]; intros prev l x F Hn.
+  - cbn [nth_error] in Hn. injection Hn as <-. exists []. split; [|reflexivity].
+    cbn [firstn seg_loop concat app]. now rewrite app_nil_r.
+  - destruct l as [|u l']; [destruct j; discriminate Hn|].
+    cbn [nth_error] in Hn. inversion F as [|? ? [_ Hp] F']; subst.
+    destruct (IH u l' x F' Hn) as [a' [Ea Da]].
+    exists (prev ++ (if qlt_b thr (dget t (prev, u)) then [sp] else []) ++ a'). split.
+    + cbn [firstn seg_loop]. cbn [concat] in *. rewrite concat_app, <- !app_assoc. f_equal.
+      rewrite <- Ea. destruct (qlt_b thr (dget t (prev, u))); cbn [concat app]; now rewrite ?app_nil_r.
+    + rewrite !despace_app, Da, (despace_nosp prev Hp).
+      change (firstn (S j) (prev :: u :: l')) with (prev :: firstn j (u :: l')). cbn [concat]. f_equal.
+      destruct (qlt_b thr (dget t (prev, u))); reflexivity.
+Qed.
+
+(* The same, reading the output string around the pair: for the i-th adjacent pair (x, y) of units,
+   the output is a ++ x ++ [one space iff thr < P(x, y)] ++ y ++ b, where a and b are, up to spaces,
+   the units before x and the units after y *)
+Theorem segment_utt_boundary_between : forall (t : list ((str * str) * Q)) (thr : Q) (wordsep utt out p0 : str)
+                                              (rest : list str) (i : nat) (x y : str),
+  split_ws (replace_all wordsep [sp] utt) = p0 :: rest ->
+  nth_error (combine (p0 :: rest) rest) i = Some (x, y) ->
+  segment_utt t thr wordsep utt = Ok out ->
+  exists a b : str,
+    out = a ++ x ++ (if qlt_b thr (dget t (x, y)) then [sp] else []) ++ y ++ b /\
+    despace a = concat (firstn i (p0 :: rest)) /\
+    despace b = concat (skipn (S i) rest).
+Proof.
+  intros t thr wordsep utt out p0 rest i x y E Hn H.
+  rewrite (segment_utt_boundary_at t thr wordsep utt p0 rest i x y E Hn) in H. injection H as <-.
+  pose proof (split_ws_ok (replace_all wordsep [sp] utt)) as Hok. rewrite E in Hok.
+  assert (Hx : nth_error (p0 :: rest) i = Some x).
+  { clear - Hn. revert p0 i Hn. induction rest as [|u r IH]; intros p0 i Hn; [destruct i; discriminate Hn|].
+    change (combine (p0 :: u :: r) (u :: r)) with ((p0, u) :: combine (u :: r) r) in Hn.
+    destruct i as [|i]; cbn [nth_error] in *; [now injection Hn as <- _|]. now apply IH. }
+  destruct (seg_loop_upto t thr i p0 rest x Hok Hx) as [a [Ea Da]].
+  exists a, (concat (seg_loop t thr [sp] y (skipn (S i) rest))). split; [|split].
+  - cbn [concat] in Ea. rewrite Ea, <- app_assoc. reflexivity.
+  - exact Da.
+  - apply despace_seg_loop. inversion Hok as [|? ? _ Hrest]; subst.
+    clear - Hrest. revert i. induction Hrest as [|u r Hu Hr IH]; intros i; [destruct i; constructor|].
+    destruct i as [|i]; [exact Hr|]. exact (IH i).
 Qed.
